@@ -11,8 +11,9 @@ import vp
 
 ABS, HP, HN = 99, 77, -77
 POOLS = {"ascii": "abcde", "multi": "é世\U0001F600ßñ", "comb": "é世̈a"}
-HUGE_P = [("u64", {"$u64": str(2**63)}), ("i128", {"$i128": str(2**127 - 1)})]
-HUGE_N = [("i64", {"$i64": str(-2**63)}), ("i128", {"$i128": str(-2**127)})]
+# (the first of each: far out of range, yet congruent modulo 2^64 to a small position -- 1 and -1)
+HUGE_P = [("i128-wrap", {"$i128": str(2**64 + 1)}), ("u64", {"$u64": str(2**63)}), ("i128", {"$i128": str(2**127 - 1)}), ("u128-wrap", {"$u128": str(2**64)}), ("i128-wrap2", {"$i128": str(2**65 + 2)})]
+HUGE_N = [("i128-wrap", {"$i128": str(-2**64 - 1)}), ("i64", {"$i64": str(-2**63)}), ("i128", {"$i128": str(-2**127)}), ("i128-wrap0", {"$i128": str(-2**64)}), ("i128-wrap2", {"$i128": str(-2**65 - 2)})]
 
 
 def spell(x, name, ctx, variant):
@@ -66,6 +67,11 @@ def run(tier):
                         exp = None
                     jobs.append({"ctx": ctx, "steps": [{"op": "render_str", "src": src, "auto": False}]})
                     meta.append((vec, cn, src, exp))
+                    if var == 0 and exp is not None and cn in ("arr", "multi"):
+                        # the optional-chaining form on a receiver that IS defined (empty ones included) is the plain form
+                        src2 = "{%% if x?[%s:%s%s] is defined %%}%s{%% else %%}UNDEF{%% endif %%}" % (a, b, (":" + c) if v["c"] != ABS else "", src.replace("x[", "x?["))
+                        jobs.append({"ctx": ctx, "steps": [{"op": "render_str", "src": src2, "auto": False}]})
+                        meta.append((vec, cn, src2, exp))
         elif v["op"] == "index":
             for var in range(3):
                 for cn, elems in conts:
@@ -79,6 +85,9 @@ def run(tier):
                     exp = "<%s>" % elems[res["i"]] if res["def"] else "UNDEF"
                     jobs.append({"ctx": ctx, "steps": [{"op": "render_str", "src": src, "auto": False}]})
                     meta.append((vec, cn, src, exp))
+                    if var == 0 and cn in ("arr", "multi"):
+                        jobs.append({"ctx": ctx, "steps": [{"op": "render_str", "src": src.replace("x[", "x?["), "auto": False}]})
+                        meta.append((vec, cn, src.replace("x[", "x?["), exp))
         else:
             for cn, elems in conts[1:]:
                 s = "".join(elems)
@@ -123,7 +132,7 @@ def run(tier):
                 {"job": job, "expected": exp, "got": x, "vector": vec})
     C.sample({"vector": meta[len(meta) // 2][0], "src": meta[len(meta) // 2][2], "expected": meta[len(meta) // 2][3]})
     C.sample({"vector": meta[7][0], "src": meta[7][2], "expected": meta[7][3]})
-    C.assumptions += ["HUGE is concretised as 2^63, +-(2^127-1/2^127) and, for indices, u128::MAX; u128 values above i128::MAX as slice bounds are outside the universe",
+    C.assumptions += ["HUGE is concretised as 2^63, +-(2^127-1/2^127), values congruent modulo 2^64 to small positions (2^64+1, -2^64-1, ...) and, for indices, u128::MAX; u128 values above i128::MAX as slice bounds are outside the universe",
                       "characters are Unicode scalar values (the `unicode` feature is off)"]
     return C.finish()
 
